@@ -178,7 +178,7 @@ func (t jtx) render(order int, dupKey string) string {
 	return "{" + body + "}"
 }
 
-var dupKinds = []string{"", "", "", "", "input.missing-type", "input.missing-type-dup", "input.amount", "input.address", "input.type", "input.extra", "transfer.amount", "transfer.extra", "transfer.amount-replaced", "transfer.wrap", "transfer.wrap-int64", "tx.input", "tx.conversion", "tx.transfers", "tx.transfers-null", "tx.conversion-empty", "tx.extra", "tx.both",
+var dupKinds = []string{"", "", "", "", "input.missing-type", "input.missing-type-dup", "input.amount", "input.address", "input.type", "input.extra", "transfer.amount", "transfer.extra", "transfer.amount-replaced", "transfer.wrap", "transfer.wrap-int64", "transfer.sum-over-int64", "tx.input", "tx.conversion", "tx.transfers", "tx.transfers-null", "tx.conversion-empty", "tx.extra", "tx.both",
 	"batch.version", "batch.transactions", "batch.extra", "batch.metadata", "case.version", "case.transactions", "case.input", "case.amount", "unicode.key", "neither", "two-inputs", "unknown-ticker", "unknown-conv", "escaped-ticker", "ws"}
 
 func (g *c20gen) batch() (string, string) {
@@ -218,6 +218,21 @@ func (g *c20gen) batch() (string, string) {
 					tot.Add(tot, b)
 				}
 				t.outs[0][1] = "0"
+				t.amount = tot.String()
+			}
+		case "transfer.sum-over-int64":
+			// every output fits an int64 and they add up to the input exactly - which does not fit
+			if i == 0 && t.conv == "" {
+				sets := [][]string{{"4611686018427387904", "4611686018427387904"}, {"9223372036854775807", "1"}, {"9223372036854775807", "9223372036854775807"},
+					{"9223372036854775807", "9223372036854775807", "1"}, {"6148914691236517205", "6148914691236517205", "6148914691236517205"}, {"9223372036854775806", "2"}}
+				set := sets[g.rng.Intn(len(sets))]
+				tot := new(big.Int)
+				t.outs = nil
+				for _, a := range set {
+					b, _ := new(big.Int).SetString(a, 10)
+					tot.Add(tot, b)
+					t.outs = append(t.outs, [2]string{g.addr(), a})
+				}
 				t.amount = tot.String()
 			}
 		case "escaped-ticker":
